@@ -6,6 +6,7 @@
 Require Import Base Constants ConfigGen PrivGen Fixed Curve Config Emode ConfigPaths Privilege.
 Require Import Bank BankOps Risk Handlers Deleverage.
 Require Import PrivilegeLemmas DeleverageLemmas.
+Require Import GroupRoles GroupRolesLemmas.
 Local Open Scope Z_scope.
 
 (* ---------------------------------------------------------------- delegated roles *)
@@ -149,6 +150,38 @@ Example C12_nonvacuous_window :
   wt_window s = [of_int 700] /\ wt_resets s = [1700086400] /\ wc_withdrawn (wt_cache s) = 700.
 Proof. vm_compute. repeat split; reflexivity. Qed.
 
+(* ------------------------------------------------------------------------------------------------------------------
+   Who HOLDS a role (model/GroupRoles.v: marginfi_group_configure and the has_one through which every delegated
+   instruction recognises its signer).  A successful configure was signed by the current admin and stores each requested
+   key under the role of the same name - the curve admin's key never lands in the limit admin's field, etc. *)
+Theorem C12_roles_assigned_exactly_by_admin : forall g signer a now g',
+  ix_group_configure g signer a now = Ok g' ->
+  signer = gr_admin g /\
+  role_keys g' = [gc_admin a; gc_emode a; gc_curve a; gc_limit a; gc_emissions a; gc_metadata a; gc_risk a] /\
+  ix_group_set_caps (gc_init a) (gc_maint a) = Ok (gr_caps g') /\ gr_fee_last g' = now.
+Proof. exact group_configure_exact. Qed.
+
+(* no delegate (nor anybody else) can take, keep or pass on a role: any history of configure attempts in which the
+   admin does not sign leaves the whole table - all seven keys and the leverage caps - exactly as it was *)
+Theorem C12_roles_frozen_without_admin : forall ops g,
+  Forall (fun op => fst (fst op) <> gr_admin g) ops -> gr_run g ops = g.
+Proof. exact roles_frozen_without_admin. Qed.
+
+(* over ANY history: whoever is recognised under role r at the end either held r at the start or was written into
+   exactly r by a configure signed by the admin of that moment *)
+Theorem C12_role_holder_appointed_by_admin : forall ops g r k,
+  role_key (gr_run g ops) r = k ->
+  role_key g r = k \/
+  exists pre s a now post, ops = pre ++ (s, a, now) :: post /\ s = gr_admin (gr_run g pre) /\ gc_key a r = k.
+Proof. exact role_holder_appointed_by_admin. Qed.
+
+Example C12_roles_nonvacuous :
+  let g0 := mkGR 1 1 1 1 1 1 1 (mkCaps 0 0) 0 in
+  let a := mkGC 2 3 4 5 6 7 8 None None in
+  let g := gr_run g0 [(4, a, 10); (1, a, 20); (1, a, 30); (3, mkGC 3 3 3 3 3 3 3 None None, 40)] in
+  role_keys g = [2; 3; 4; 5; 6; 7; 8] /\ gr_fee_last g = 20 /\ role_accepts g GCurve 4 = true /\ role_accepts g GLimit 4 = false.
+Proof. vm_compute. repeat split; reflexivity. Qed.
+
 Print Assumptions C12_curve_admin_frame.
 Print Assumptions C12_limit_admin_frame.
 Print Assumptions C12_emode_admin_frame.
@@ -167,3 +200,6 @@ Print Assumptions C12_daily_limit.
 Print Assumptions C12_daily_resets_spaced.
 Print Assumptions C12_deleverage_tx_window.
 Print Assumptions C12_purge_guard.
+Print Assumptions C12_roles_assigned_exactly_by_admin.
+Print Assumptions C12_roles_frozen_without_admin.
+Print Assumptions C12_role_holder_appointed_by_admin.
